@@ -267,6 +267,7 @@ func (s *Session) Churn(nNodes, nSpare, steps int) {
 				members = append(members, j)
 			}
 			spare = spare[1:]
+			s.afterChange(members)
 		case x < 82 && len(members) > 1:
 			s.Repair(members, 3)
 			l := Pick(rng, members)
@@ -279,6 +280,7 @@ func (s *Session) Churn(nNodes, nSpare, steps int) {
 				}
 				members = rest
 			}
+			s.afterChange(members)
 		case x < 90:
 			s.Repair(members, 1)
 		default:
@@ -296,6 +298,25 @@ func (s *Session) Churn(nNodes, nSpare, steps int) {
 		}
 	}
 	s.Run.Count(F("final-members:%d", len(members)))
+}
+
+// afterChange: reads of every key right after a membership change (acknowledged data must be
+// reachable at once), then a repair to a fixpoint, a quiescent-point placement check and reads again.
+func (s *Session) afterChange(members []uint64) {
+	if s.Dead || len(members) == 0 {
+		return
+	}
+	sweep := func() {
+		for _, k := range KeyTokens {
+			m := Pick(s.Rng, members)
+			s.Do("get", U(m), k, U(HashOf(k)))
+			s.Do("plist", U(Pick(s.Rng, members)), k, U(HashOf(k)))
+		}
+	}
+	sweep()
+	s.Repair(members, 6)
+	s.Quiet()
+	sweep()
 }
 
 func Pick[T any](r *hlib.Rng, xs []T) T { return hlib.Pick(r, xs) }
